@@ -1,5 +1,5 @@
 import PieModel.Props.C04
-
+import PieModel.Props.C04Once
 #print axioms PieModel.C04_queueAdd_mem
 #print axioms PieModel.C04_queueAdd_nodup
 #print axioms PieModel.C04_queuePop_spec
@@ -14,3 +14,5 @@ import PieModel.Props.C04
 #print axioms PieModel.C04_popLeastFrom_no_queued_dependency_in_cone
 #print axioms PieModel.C04_popLeastFrom_no_queued_dependency
 #print axioms PieModel.C04_popLeastFrom_in_cone
+#print axioms PieModel.C04_bu_once
+#print axioms PieModel.C04_bu_executed_consistent
